@@ -18,3 +18,4 @@ def rules(ctx):
     S.c02_r3_free_horizon(ctx)
     S.c06_r5_tracking(ctx)
     S.c02_r4_who_frees(ctx)
+    S.tracker_state_rules(ctx)
